@@ -381,6 +381,46 @@ def producer_shard(payload):
     return d
 
 
+def mapper_front_validation(cfg):
+    """VALIDATION, not the deciding step: one real map_workload_to_arch run whose result holds several
+    mappings (a two-objective front, mappings with different column sets: a tensor bypassing a
+    memory has no column there).  For every row every per_* breakdown of energy() must sum to the
+    row's Total<SEP>energy and latency() must equal Total<SEP>latency — the producer invariant
+    'Total == sum of parts' on rows assembled from several detailed re-evaluations."""
+    import itertools as _it
+    import math
+    import accelforge as af
+    from accelforge.frontend.spec import Spec
+    from accelforge.frontend.mapper.metrics import Metrics
+    from accelforge.util.parallel import set_n_parallel_jobs
+    set_n_parallel_jobs(1)
+    st = Stats()
+    spec = Spec.from_yaml(af.examples.arches.simple, af.examples.workloads.basic.matmuls, jinja_parse_data=dict(cfg))
+    spec.mapper.metrics = Metrics.ENERGY | Metrics.LATENCY
+    r = spec.map_workload_to_arch(print_progress=False)
+    viol = []
+    st.extra["mapper_front_rows_validated"] = len(r)
+    for i in range(len(r)):
+        m = r[i]
+        row = m.data.iloc[0]
+        e_col, l_col = float(row["Total" + SEP + "energy"]), float(row["Total" + SEP + "latency"])
+        for flags in _it.product([False, True], repeat=4):
+            kw = dict(zip(("per_einsum", "per_component", "per_tensor", "per_action"), flags))
+            v = m.energy(**kw)
+            tot = sum(float(x) for x in v.values()) if isinstance(v, dict) else float(v)
+            if not math.isclose(tot, e_col, rel_tol=1e-6, abs_tol=1e-9):
+                viol.append(dict(property=PID, producer=True, cfg=dict(cfg), row=i, flags=kw,
+                                 what=f"map_workload_to_arch({dict(cfg)}, ENERGY|LATENCY): row {i} of {len(r)}: energy({[k for k, f in kw.items() if f]}) sums to {tot}, Total<SEP>energy is {e_col}",
+                                 replayed="real mapper run"))
+                break
+        lat = float(m.latency())
+        if not math.isclose(lat, l_col, rel_tol=1e-6, abs_tol=1e-9):
+            viol.append(dict(property=PID, producer=True, cfg=dict(cfg), row=i, what=f"map_workload_to_arch({dict(cfg)}): row {i}: latency() = {lat}, Total<SEP>latency is {l_col}", replayed="real mapper run"))
+    d = st.to_dict()
+    d["violations"] = viol[:2]
+    return d
+
+
 def run(args):
     t0 = time.time()
     if args.replay:
@@ -408,6 +448,12 @@ def run(args):
     for r in run_sharded(producer_shard, prod, args.jobs):
         stats.merge(r)
         violations.extend(r["violations"])
+    fronts = [(("N_EINSUMS", 1), ("M", 8), ("KN", 4), ("GlobalBufferSize", 256), ("GlobalBufferThroughput", 2), ("MainMemoryEnergy", 10))]
+    if args.tier == "thorough":
+        fronts.append((("N_EINSUMS", 2), ("M", 8), ("KN", 4), ("GlobalBufferSize", 512), ("GlobalBufferThroughput", 2), ("MainMemoryEnergy", 10)))
+    for r in run_sharded(mapper_front_validation, fronts, args.jobs):
+        stats.merge(r)
+        violations.extend(r["violations"])
     stats.unknown += len(stats.extra.get("symbolic_execution_failed") or [])
     return finish(
         PID, args.tier, "model_checking", stats, t0, violations[:5], [],
@@ -415,8 +461,9 @@ def run(args):
                            "Mappings._get_cols", "Mappings._get_keys_of_length", "Mappings.sum", "_series2list"],
         bounds=dict(results=[f"{n} Einsum(s), {m}" for n, m in payloads], rows=1, cells="every numeric cell a non-negative real symbol (unbounded)",
                     flag_sets="energy 16, actions 8, latency 4",
-                    outside="multi-row frames (the accessors are row-wise), per_compute(), drop_* helpers; 'accessor == Total column' is validated "
-                            "numerically on the real rows only (producer invariant; single-Einsum case proven by C05)"),
+                    outside="multi-row frames for the symbolic part (the accessors are row-wise), per_compute(); 'accessor == Total column' on rows assembled by the mapper "
+                            "(map_workload_to_arch concatenates per-mapping frames with different column sets: pandas, not encodable) is VALIDATED on one/two real mapper fronts, "
+                            "not decided (producer invariant; single-Einsum case proven by C05)"),
         assumptions=["_coerce_numeric (output formatting) stubbed by identity; np.maximum stubbed by cell-wise Max",
                      "expected values are derived from the column names by this check, not by Mappings.access"],
         rule="one obligation per accessor/flag-set identity (and per key for the fully keyed variants); distinct by text",
